@@ -4,18 +4,20 @@
 #include "common.h"
 
 static void do_pad(vrng *r, size_t len, size_t bs, size_t cap) {
-    if (cap < len) return;
-    vguard g = v_galloc(cap + 1, 1);
-    unsigned char *buf = g.p + 1, *orig = malloc(cap + 1);
-    vrng_bytes(r, buf, cap);
+    /* the buffer holds max(cap, len) bytes and ends at a guard page: with a declared capacity below the data length
+     * the call must still fail without writing (a write past the buffer faults) */
+    size_t room = cap > len ? cap : len;
+    vguard g = v_galloc(room + 1, 1);
+    unsigned char *buf = g.p + 1, *orig = malloc(room + 1);
+    vrng_bytes(r, buf, room);
     if (len && vrng_below(r, 3) == 0) buf[len - 1] = vrng_below(r, 2) ? 0x80 : 0x00;   /* data ending like padding */
-    memcpy(orig, buf, cap);
+    memcpy(orig, buf, room);
     size_t plen = 4242;
     int ret = sodium_pad(&plen, buf, len, bs, cap);
     int data_ok = memcmp(buf, orig, len) == 0;
     size_t shown = (ret == 0 && plen <= cap) ? plen : 0;
     int rest_ok = 1;
-    for (size_t i = (ret == 0 ? shown : 0); i < cap; i++) rest_ok &= buf[i] == orig[i];
+    for (size_t i = (ret == 0 ? shown : 0); i < room; i++) rest_ok &= buf[i] == orig[i];
     fprintf(v_out, "{\"op\":\"pad\",\"len\":%zu,\"bs\":%zu,\"cap\":%zu,\"ret\":%d,\"plen\":%zu,", len, bs, cap, ret, plen);
     v_emit_bytes("data", orig, len); fputc(',', v_out); v_emit_bytes("buf", buf, shown);
     fprintf(v_out, ",\"data_ok\":%s,\"rest_ok\":%s}\n", data_ok ? "true" : "false", rest_ok ? "true" : "false");
@@ -50,7 +52,7 @@ int main(int argc, char **argv) {
         for (size_t len = 0; len <= maxlen; len = len < 70 ? len + 1 : len + 1 + vrng_below(&r, 9)) {
             size_t pl = bs ? len + (bs - len % bs) : len;
             do_pad(&r, len, bs, len); if (pl > 0) do_pad(&r, len, bs, pl - 1); do_pad(&r, len, bs, pl); do_pad(&r, len, bs, pl + 1);
-            if (len == 0) do_pad(&r, 0, bs, 0);
+            do_pad(&r, len, bs, 0); if (len > 1) { do_pad(&r, len, bs, len - 1); do_pad(&r, len, bs, len / 2); }
         }
         if (bs == 0) { unsigned char z = 0x80; do_unpad(&z, 0, 1, 1); continue; }
         /* unpad: marker at every position of the final block, and corrupted variants */
